@@ -307,6 +307,17 @@ def build_driver(ctx):
     return ok
 
 
+def run_harness(argv, env, ctx):
+    """runs a harness binary; a run that does not terminate (quick: 15 min, thorough: 2 h) is reported like a crash
+    (return code -999, the output so far is kept) — a hang inside the real crate is a finding, not a reason to wait"""
+    limit = 900 if ctx.quick() else 7200
+    try:
+        return subprocess.run(argv, capture_output=True, text=True, env=env, timeout=limit)
+    except subprocess.TimeoutExpired as e:
+        def txt(b):
+            return b.decode("utf-8", "replace") if isinstance(b, bytes) else (b or "")
+        return subprocess.CompletedProcess(argv, -999, txt(e.stdout), txt(e.stderr) + f"\nTIMEOUT: the harness did not terminate within {limit} s (hang)")
+
 def run_driver(engine, text, timeout=3600):
     if not os.path.exists(driver_path()):
         return 127, "", "driver executable missing (lake build driver failed)"
